@@ -15,6 +15,7 @@ import (
 )
 
 type Clause struct {
+	OnlyProp string // clause applies only when checking this property ("@C17 expr")
 	Label string
 	Text  string
 	Expr  ast.Expr
@@ -153,6 +154,12 @@ func (cs *ContractSet) parseFile(path, pkgPath string) error {
 		}
 		mk := func(text string) (*Clause, error) {
 			label := ""
+			onlyProp := ""
+			if strings.HasPrefix(text, "@") {
+				var w string
+				w, text = splitWord(text)
+				onlyProp = w[1:]
+			}
 			if i := strings.Index(text, "::"); i > 0 && !strings.ContainsAny(text[:i], " ()") {
 				label = text[:i]
 				text = strings.TrimSpace(text[i+2:])
@@ -161,7 +168,7 @@ func (cs *ContractSet) parseFile(path, pkgPath string) error {
 			if err != nil {
 				return nil, fmt.Errorf("%s:%d: %v in %q", path, ln, err, text)
 			}
-			return &Clause{Label: label, Text: text, Expr: e, File: path, Line: ln}, nil
+			return &Clause{Label: label, Text: text, Expr: e, File: path, Line: ln, OnlyProp: onlyProp}, nil
 		}
 		switch word {
 		case "requires":
